@@ -42,7 +42,9 @@ fn exact_step(c: &ConeT, x: &[f64], d: &[f64], amax: f64, dual: bool) -> (f64, b
 
 fn interior_point(c: &ConeT, rng: &mut Rng, dual: bool) -> Vec<f64> {
     let depth = *rng.choose(&[1.0, 0.3, 1e-2, 1e-4, 1e-8]);
-    let mag = rng.logpos(-3.0, 3.0);
+    // cones are scale invariant: one point in eight lives at an extreme overall scale (directions follow the point's
+    // scale), where absolute thresholds in an implementation would show
+    let mag = if rng.bool(0.125) { rng.logpos(-40.0, 40.0) } else { rng.logpos(-3.0, 3.0) };
     vc::sample_interior(c, rng, dual, mag, depth)
 }
 
